@@ -21,7 +21,8 @@ Roles(type) == IF type = "bits" THEN {"src", "mask", "dst"} ELSE {"src", "mask"}
 
 (* Focus: before the focused setter is exercised, the properties without which it has no visible effect *)
 (* are set (an alpha map for its origin and for the map's accessors, a dither for the dither offset,    *)
-(* clip + source clipping + client clip for each other, a transform for the filter)                     *)
+(* clip + source clipping + client clip for each other, a transform for the filter, a repeat for the     *)
+(* in-place edits of the palette / pixel memory)                                                        *)
 PreludeOf(n) ==
     CASE n \in {"ao", "ma"} -> <<<<"am", 1>>>>
       [] n = "am" -> <<<<"ao", 4>>>>
@@ -31,6 +32,7 @@ PreludeOf(n) ==
       [] n = "cc" -> <<<<"c", 1>>, <<"sc", 1>>>>
       [] n = "c" -> <<<<"sc", 1>>, <<"cc", 1>>>>
       [] n = "f" -> <<<<"t", 2>>>>
+      [] n \in {"pe", "px"} -> <<<<"r", 1>>>>     \* client memory edits: a repeating image is opaque / solid as a whole
       [] OTHER -> <<>>
 RECURSIVE WithPrelude(_, _, _, _)
 WithPrelude(Q, h, pre, k) ==        \* <<state, history>> after the prelude calls pre[k..]
